@@ -245,32 +245,36 @@ fn pop_call_info_for_line(
 ) -> Option<CallInfo> {
     let line_context_name = get_line_context_name(state);
     let call_depth = function::get_call_stack_depth(state);
-    let forin_state = get_core_sub_state_for_command(state, FORIN_STATE_KEY.to_string());
-    let call_info_stack = get_list(CALL_STACK_STATE_KEY.to_string(), forin_state);
 
-    match call_info_stack.pop() {
-        Some(state_value) => match state_value {
-            StateValue::SubState(mut call_info_state) => {
+    // frames which do not belong to this line are dropped one by one (a loop, the stack of a long
+    // running script may hold far more frames than the native stack has room for calls)
+    loop {
+        let popped = {
+            let forin_state = get_core_sub_state_for_command(state, FORIN_STATE_KEY.to_string());
+            let call_info_stack = get_list(CALL_STACK_STATE_KEY.to_string(), forin_state);
+            call_info_stack.pop()
+        };
+
+        match popped {
+            Some(StateValue::SubState(mut call_info_state)) => {
                 match deserialize_call_info(&mut call_info_state) {
                     Some(call_info) => {
                         if (call_info.meta_info.start == line || call_info.meta_info.end == line)
                             && call_info.line_context_name == line_context_name
                             && call_info.call_depth == call_depth
                         {
-                            Some(call_info)
-                        } else if recursive {
-                            pop_call_info_for_line(line, state, recursive)
-                        } else {
+                            return Some(call_info);
+                        } else if !recursive {
                             store_call_info(&call_info, state);
-                            None
+                            return None;
                         }
                     }
-                    None => None,
+                    None => return None,
                 }
             }
-            _ => pop_call_info_for_line(line, state, recursive),
-        },
-        None => None,
+            Some(_) => (),
+            None => return None,
+        }
     }
 }
 
